@@ -90,6 +90,7 @@ def _find_lcas(
     lookup_stamp: Callable[[ObjectID], int],
     min_stamp: int = 0,
     shallows: set[ObjectID] | None = None,
+    reduce: bool = True,
 ) -> list[ObjectID]:
     """Find lowest common ancestors between commits.
 
@@ -100,6 +101,7 @@ def _find_lcas(
         lookup_stamp: Function to get commit timestamp
         min_stamp: Minimum timestamp to consider
         shallows: Set of shallow commits
+        reduce: Remove candidates that are ancestors of other candidates
 
     Returns:
         List of lowest common ancestor commit IDs
@@ -210,7 +212,44 @@ def _find_lcas(
             results.append((dt, cmt))
     results.sort(key=lambda x: x[0])
     lcas = [cmt for dt, cmt in results]
+    if reduce and len(lcas) > 1:
+        # The walk above stops as soon as only _DNC commits are queued.  Commit
+        # times merely order the walk, so a candidate can have been accepted
+        # before the _DNC mark of a candidate below which it lies had a chance
+        # to reach it (equal or backwards timestamps).  Like git's
+        # remove_redundant(), drop every candidate that is an ancestor of
+        # another one.
+        lcas = _remove_redundant(lookup_parents, lcas, lookup_stamp, shallows)
     return lcas
+
+
+def _remove_redundant(
+    lookup_parents: Callable[[ObjectID], list[ObjectID]],
+    commits: Sequence[ObjectID],
+    lookup_stamp: Callable[[ObjectID], int],
+    shallows: set[ObjectID] | None = None,
+) -> list[ObjectID]:
+    """Drop duplicates and every commit that is an ancestor of another one.
+
+    ``c`` is an ancestor of one of ``others`` exactly if the (unreduced)
+    common ancestor candidates of ``c`` and ``others`` contain ``c`` itself.
+    """
+    unique = list(dict.fromkeys(commits))
+    if len(unique) < 2:
+        return unique
+    return [
+        c
+        for c in unique
+        if c
+        not in _find_lcas(
+            lookup_parents,
+            c,
+            [o for o in unique if o != c],
+            lookup_stamp,
+            shallows=shallows,
+            reduce=False,
+        )
+    ]
 
 
 # actual git sorts these based on commit times
